@@ -43,10 +43,10 @@ _ERR_PROP2 = re.compile(r"Error: Temporal properties were violated")
 _ERR_POST = re.compile(r"(?:Error: )?(?:The )?[Pp]ostcondition (\S+)? ?.*(violated|false)", re.I)
 _STATES = re.compile(r"(\d+) states generated, (\d+) distinct states found")
 _DEPTH = re.compile(r"The depth of the complete state graph search is (\d+)")
-_COV = re.compile(r"^<(\w+) line (\d+), col \d+ to line \d+, col \d+ of module (\w+)>: (\d+):(\d+)")
+_COV = re.compile(r"^<(\w+) line (\d+), col \d+ to line \d+, col \d+ of module (\w+)(?: \([\d ]+\))?>: (\d+):(\d+)")
 
 
-def _java_cmd(workers: int, fast_start: bool, heap: str, depth_first: bool) -> list[str]:
+def _java_cmd(workers: int, fast_start: bool, heap: str, depth_first: bool, tmpdir: str | None = None) -> list[str]:
     cmd = ["java"]
     if fast_start:
         cmd += ["-XX:+UseSerialGC", "-XX:TieredStopAtLevel=1"]
@@ -55,6 +55,8 @@ def _java_cmd(workers: int, fast_start: bool, heap: str, depth_first: bool) -> l
     cmd += [f"-Xmx{heap}", "-Xss64m"]
     if depth_first:
         cmd += ["-Dtlc2.tool.queue.IStateQueue=StateDeque"]
+    if tmpdir:
+        cmd += [f"-Djava.io.tmpdir={tmpdir}"]  # TLC unpacks its standard modules there: keep it inside the scratch dir
     cmd += ["-cp", CP, "tlc2.TLC"]
     return cmd
 
@@ -85,7 +87,8 @@ def run(
     try:
         cfg = tmp / f"{module}.cfg"
         cfg.write_text(cfg_text)
-        cmd = _java_cmd(workers, fast_start, heap, depth_first)
+        (tmp / "jtmp").mkdir(exist_ok=True)
+        cmd = _java_cmd(workers, fast_start, heap, depth_first, str(tmp / "jtmp"))
         cmd += ["-workers", str(workers), "-metadir", str(tmp / "meta"), "-noGenerateSpecTE"]
         cmd += ["-config", str(cfg)]
         if coverage:
